@@ -32,6 +32,23 @@ def load_known() -> set:
         return set(json.load(fh)["names"])
 
 
+def clone(n):
+    """Structural copy of an AST subtree: fields and positions only (no `_parent` / `_module` back references, which would
+    drag the whole module into a deepcopy)."""
+    if isinstance(n, ast.AST):
+        new = type(n)()
+        for f in n._fields:
+            if hasattr(n, f):
+                setattr(new, f, clone(getattr(n, f)))
+        for a in n._attributes:
+            if hasattr(n, a):
+                setattr(new, a, getattr(n, a))
+        return new
+    if isinstance(n, list):
+        return [clone(x) for x in n]
+    return n
+
+
 def _dotted(e):
     parts = []
     while isinstance(e, ast.Attribute):
@@ -48,12 +65,12 @@ class _Rename(ast.NodeTransformer):
 
     def visit_Name(self, n):
         if n.id == "self" and self.self_expr is not None:
-            return copy.deepcopy(self.self_expr)
+            return clone(self.self_expr)
         if n.id in self.names:
             r = self.names[n.id]
             if isinstance(r, str):
                 return ast.copy_location(ast.Name(id=r, ctx=n.ctx), n)
-            return copy.deepcopy(r) if isinstance(n.ctx, ast.Load) else n
+            return clone(r) if isinstance(n.ctx, ast.Load) else n
         return n
 
     def visit_arg(self, a):
@@ -115,16 +132,16 @@ def _as_expression(stmts, env: dict):
         if isinstance(s, ast.Return):
             if s.value is None:
                 return ast.Constant(value=None)
-            return _Rename(env).visit(copy.deepcopy(s.value))
+            return _Rename(env).visit(clone(s.value))
         if isinstance(s, ast.Assign) and len(s.targets) == 1 and isinstance(s.targets[0], ast.Name) and not _contains(s.value, (ast.Yield, ast.Await, ast.NamedExpr)):
-            env[s.targets[0].id] = _Rename(env).visit(copy.deepcopy(s.value))
+            env[s.targets[0].id] = _Rename(env).visit(clone(s.value))
             continue
         if isinstance(s, ast.If) and not _contains(s.test, (ast.NamedExpr,)):
             a = _as_expression(s.body + ([] if _always_returns(s.body) else rest), env)
             b = _as_expression(s.orelse + ([] if _always_returns(s.orelse) else rest), env)
             if a is None or b is None:
                 return None
-            return ast.IfExp(test=_Rename(env).visit(copy.deepcopy(s.test)), body=a, orelse=b)
+            return ast.IfExp(test=_Rename(env).visit(clone(s.test)), body=a, orelse=b)
         if isinstance(s, ast.Raise) or isinstance(s, ast.Assert):
             if isinstance(s, ast.Assert):
                 continue
@@ -213,11 +230,24 @@ class Expander:
         return any(_dotted(d) in ("classmethod",) for d in fn.decorator_list)
 
     def bind(self, fn: ast.FunctionDef, call: ast.Call, self_expr, is_method: bool):
-        if any(isinstance(a, ast.Starred) for a in call.args) or any(k.arg is None for k in call.keywords):
-            raise NotInlinable("star arguments")
         a = fn.args
-        if a.vararg or a.kwarg:
-            raise NotInlinable("variadic callee")
+        star_pass = {}
+        starred = [x for x in call.args if isinstance(x, ast.Starred)]
+        dstar = [k for k in call.keywords if k.arg is None]
+        if starred or dstar or a.vararg or a.kwarg:
+            # pure pass-through:  f(..., *args, **kwargs)  into  def f(..., *args, **kwargs)
+            ok = len(starred) == (1 if a.vararg else 0) and len(dstar) == (1 if a.kwarg else 0) and len(starred) <= 1 and len(dstar) <= 1
+            if ok and starred:
+                ok = call.args[-1] is starred[0] and isinstance(starred[0].value, ast.Name)
+            if ok and dstar:
+                ok = isinstance(dstar[0].value, ast.Name)
+            if not ok:
+                raise NotInlinable("star arguments")
+            if starred:
+                star_pass[a.vararg.arg] = starred[0].value
+            if dstar:
+                star_pass[a.kwarg.arg] = dstar[0].value
+            call = ast.Call(func=call.func, args=[x for x in call.args if not isinstance(x, ast.Starred)], keywords=[k for k in call.keywords if k.arg is not None])
         params = [x.arg for x in a.posonlyargs + a.args]
         defaults = dict(zip(params[len(params) - len(a.defaults):], a.defaults))
         for x, d in zip(a.kwonlyargs, a.kw_defaults):
@@ -242,6 +272,7 @@ class Expander:
                     binding[p] = defaults[p]
                 else:
                     raise NotInlinable(f"missing argument {p}")
+        binding.update(star_pass)
         return binding
 
     # -- one function ------------------------------------------------------------------------------------------------------------
@@ -276,7 +307,7 @@ class Expander:
                                     new_args = []
                                     for a in c.args:
                                         if isinstance(a, ast.Starred) and isinstance(a.value, ast.Name) and a.value.id == t:
-                                            new_args += [copy.deepcopy(e) for e in st.value.elts]
+                                            new_args += [clone(e) for e in st.value.elts]
                                             changed = True
                                         else:
                                             new_args.append(a)
@@ -284,6 +315,35 @@ class Expander:
                         if stored(later) & (elems | {t}) or isinstance(later, (ast.For, ast.While, ast.If, ast.With, ast.Try)):
                             break
         block(fn.body)
+        return changed
+
+    @staticmethod
+    def unroll_unpacked_comprehensions(fn: ast.FunctionDef) -> bool:
+        """`a, b = (f(x) for x in (p, q))` -> `a, b = (f(p), f(q))` (also list comprehensions): element-wise substitution."""
+        changed = False
+        for n in ast.walk(fn):
+            if not (isinstance(n, ast.Assign) and len(n.targets) == 1 and isinstance(n.targets[0], (ast.Tuple, ast.List))):
+                continue
+            v = n.value
+            if not (isinstance(v, (ast.GeneratorExp, ast.ListComp)) and len(v.generators) == 1):
+                continue
+            g = v.generators[0]
+            if g.ifs or g.is_async or not isinstance(g.iter, (ast.Tuple, ast.List)) or len(g.iter.elts) != len(n.targets[0].elts) or any(isinstance(x, ast.Starred) for x in g.iter.elts):
+                continue
+            elts = []
+            for it in g.iter.elts:
+                if isinstance(g.target, ast.Name):
+                    sub = {g.target.id: it}
+                elif isinstance(g.target, (ast.Tuple, ast.List)) and isinstance(it, (ast.Tuple, ast.List)) and len(it.elts) == len(g.target.elts) and all(isinstance(t, ast.Name) for t in g.target.elts):
+                    sub = {t.id: e for t, e in zip(g.target.elts, it.elts)}
+                else:
+                    elts = None
+                    break
+                elts.append(_Rename(sub).visit(clone(v.elt)))
+            if elts is None:
+                continue
+            n.value = ast.copy_location(ast.Tuple(elts=elts, ctx=ast.Load()), v)
+            changed = True
         return changed
 
     @staticmethod
@@ -298,12 +358,13 @@ class Expander:
         changed = False
         for c in ast.walk(fn):
             if isinstance(c, ast.Call) and isinstance(c.func, ast.Name) and c.func.id in lam and stores.get(c.func.id) == 1:
-                c.func = copy.deepcopy(lam[c.func.id])
+                c.func = clone(lam[c.func.id])
                 changed = True
         return changed
 
     def expand_function(self, fn: ast.FunctionDef, mi, cls_qual, qual, stack=()):
         changed = self.normalize_star_args(fn)
+        changed |= self.unroll_unpacked_comprehensions(fn)
         fn.body, ch = self._block(fn.body, mi, cls_qual, qual, stack + (qual,), 0)
         changed |= ch
         for _ in range(2):
@@ -467,7 +528,7 @@ class Expander:
         binding = self.bind(cfn, call, self_expr, self_expr is not None or self._is_static(cfn))
         self.counter += 1
         sfx = f"__i{self.counter}"
-        body = copy.deepcopy([x for x in cfn.body if not (isinstance(x, ast.Expr) and isinstance(x.value, ast.Constant))])
+        body = clone([x for x in cfn.body if not (isinstance(x, ast.Expr) and isinstance(x.value, ast.Constant))])
         # callee-local names (stored anywhere in the body) and parameters get fresh names
         locals_ = set(binding)
         for x in body:
@@ -493,14 +554,14 @@ class Expander:
             class _T(ast.NodeTransformer):
                 def visit_Assign(self_inner, n):
                     if len(n.targets) == 1 and isinstance(n.targets[0], ast.Name) and n.targets[0].id == res:
-                        return ast.copy_location(ast.Assign(targets=[copy.deepcopy(t) for t in assign_to], value=n.value, lineno=n.lineno), n)
+                        return ast.copy_location(ast.Assign(targets=[clone(t) for t in assign_to], value=n.value, lineno=n.lineno), n)
                     return self_inner.generic_visit(n)
             body = [_T().visit(x) for x in body]
         stm = []
         for p, v in binding.items():
             if p in direct:
                 continue
-            stm.append(ast.copy_location(ast.Assign(targets=[ast.Name(id=names[p], ctx=ast.Store())], value=copy.deepcopy(v), lineno=call.lineno), call))
+            stm.append(ast.copy_location(ast.Assign(targets=[ast.Name(id=names[p], ctx=ast.Store())], value=clone(v), lineno=call.lineno), call))
         stm += body
         for x in stm:
             self._relocate(x, call)
